@@ -120,6 +120,7 @@ func c02Roundtrip(c *core.Ctx, k *core.Case) {
 			return
 		}
 		var m2 *nas.Message
+		snap := deepCopy(reflect.ValueOf(m)).Interface()
 		if path == pathPlain {
 			wire, err = m.PlainNasEncode()
 		} else {
@@ -154,6 +155,38 @@ func c02Roundtrip(c *core.Ctx, k *core.Case) {
 			}
 			sl := firstDiff(def, orig, o2)
 			c.Fail(k, "roundtrip-differs:"+def.Name+"."+sl, fmt.Sprintf("%s.%s: original %s, after encode/decode %s (wire %s)", def.Name, sl, describeSlot(orig, sl), describeSlot(o2, sl), hx(wire)))
+			return
+		}
+		// the value that was encoded is still the value: encode it again, this
+		// time behind data already in the caller's buffer (an outer security
+		// header, a previous message), and once more through PlainNasEncode
+		pre := []byte{0x7e, 0x02, 0xde, 0xad, 0xbe, 0xef, 0x07}
+		if len(wire) > 9 {
+			pre = append(pre, wire[len(wire)-9:]...)
+		}
+		buf := bytes.NewBuffer(cloneB(pre))
+		if def.Family == "GSM" {
+			err = m.GsmMessageEncode(buf)
+		} else {
+			err = m.GmmMessageEncode(buf)
+		}
+		if err != nil || !bytes.Equal(buf.Bytes()[:len(pre)], pre) || !bytes.Equal(buf.Bytes()[len(pre):], wire) {
+			c.Fail(k, "encode-behind-data-differs:"+def.Name, fmt.Sprintf("encoding the same %s into a buffer that already holds %d octets: err %v, appended %s, expected %s", def.Name, len(pre), err, hx(buf.Bytes()[min3(len(pre), buf.Len()):]), hx(wire)))
+			return
+		}
+		if !reflect.DeepEqual(m, snap) {
+			_, h1, _ := bodyPointers(snap.(*nas.Message))
+			_, h2, o2 := bodyPointers(m)
+			where := "header-view"
+			if bytes.Equal(h1, h2) && o2 != nil {
+				_, _, o1 := bodyPointers(snap.(*nas.Message))
+				where = firstDiff(def, o1, o2)
+			}
+			c.Fail(k, "encode-modifies-message:"+def.Name+":"+where, fmt.Sprintf("after encoding, the %s value differs from its snapshot at %s (header view %x -> %x)", def.Name, where, h1, h2))
+			return
+		}
+		if again, err := m.PlainNasEncode(); err != nil || !bytes.Equal(again, wire) {
+			c.Fail(k, "encode-not-repeatable:"+def.Name, fmt.Sprintf("a third encode of the same %s gives %s (err %v), the first gave %s", def.Name, hx(again), err, hx(wire)))
 		}
 		return
 	}
@@ -424,6 +457,18 @@ func init() {
 				}
 			}})
 		}
+		wellFormed := func(c *core.Ctx, d *domainPDU, i int) {
+			if !d.Canon {
+				return
+			}
+			k := &core.Case{Oracle: "roundtrip", Target: "nasMessage." + d.Def.Name, S: []string{d.Def.Name}, B: [][]byte{d.B}, I: []int64{int64(i % 3)}}
+			c.Do(k)
+			if i%8 == 0 {
+				c.NonTrivial(k.Hash())
+			}
+		}
+		us = append(us, domainUnits(sp, sp.Messages, tier, 30, wellFormed)...)
+		us = append(us, bigUnits(sp.Messages, tier, 80, wellFormed)...)
 		return us
 	}
 	core.Register(p)
@@ -554,6 +599,13 @@ func init() {
 			}})
 		}
 		us = append(us, reuseUnits(sp, "receive-buffer", 40, 800)...)
+		us = append(us, bigUnits(msgs, tier, 60, func(c *core.Ctx, d *domainPDU, i int) {
+			k := &core.Case{Oracle: "fixedpoint", Target: "nas.Message.PlainNasDecode", B: [][]byte{d.B}, I: []int64{b2i(d.Canon)}}
+			c.Do(k)
+			if i%4 == 0 {
+				c.NonTrivial(k.Hash())
+			}
+		})...)
 		us = append(us, domainUnits(sp, msgs, tier, 30, func(c *core.Ctx, d *domainPDU, i int) {
 			k := &core.Case{Oracle: "fixedpoint", Target: "nas.Message.PlainNasDecode", B: [][]byte{d.B}, I: []int64{b2i(d.Canon)}}
 			c.Do(k)
